@@ -770,6 +770,47 @@ func c18random(c *Ctx, r *RNG, n int) {
 	}
 }
 
+// siblings: a chain of pending groups (optionally restarted by a real WithAttrs), then several
+// handlers derived from the same parents, every one of them handled after all were created
+func c18siblings(c *Ctx, r *RNG, n int) {
+	for k := 0; k < n; k++ {
+		var p []c18cmd
+		cur := 0
+		next := 1
+		chain := r.Range(1, 9)
+		var nodes []int
+		for i := 0; i < chain; i++ {
+			if r.Chance(12) {
+				p = append(p, c18cmd{kind: 1, parent: cur, attrs: []slog.Attr{slog.Int("w", i)}})
+			} else {
+				p = append(p, c18cmd{kind: 0, parent: cur, group: fmt.Sprintf("c%d", i)})
+			}
+			cur = next
+			next++
+			nodes = append(nodes, cur)
+		}
+		var leaves []int
+		for j, m := 0, r.Range(2, 5); j < m; j++ {
+			par := cur
+			if r.Chance(30) {
+				par = nodes[r.Intn(len(nodes))]
+			}
+			if r.Chance(85) {
+				p = append(p, c18cmd{kind: 0, parent: par, group: fmt.Sprintf("s%d", j)})
+			} else {
+				p = append(p, c18cmd{kind: 1, parent: par, attrs: c18attrs(r, 2, 1)})
+			}
+			leaves = append(leaves, next)
+			next++
+		}
+		leaves = append(leaves, cur, nodes[r.Intn(len(nodes))])
+		for _, i := range r.Perm(len(leaves)) {
+			p = append(p, c18cmd{kind: 2, parent: leaves[i], level: 0, msg: "sib", attrs: []slog.Attr{slog.Int("x", 1)}})
+		}
+		c18run(c, 15, "", p, "siblings")
+	}
+}
+
 func c18(c *Ctx) {
 	r := NewRNG(c.Seed)
 	c18json = [4]int{}
@@ -781,6 +822,7 @@ func c18(c *Ctx) {
 		n = 150000
 	}
 	c18random(c, r, n)
+	c18siblings(c, r, n/10)
 	for _, v := range c18viols {
 		c.Viol(v.what, v.replay)
 	}
@@ -808,3 +850,16 @@ func c18(c *Ctx) {
 }
 
 func init() { registry["C18"] = c18 }
+
+// Perm: a seeded permutation of 0..n-1 (Fisher-Yates)
+func (r *RNG) Perm(n int) []int {
+	out := make([]int, n)
+	for i := range out {
+		out[i] = i
+	}
+	for i := n - 1; i > 0; i-- {
+		j := r.Intn(i + 1)
+		out[i], out[j] = out[j], out[i]
+	}
+	return out
+}
